@@ -4,6 +4,7 @@
 SD="$(realpath "$1")"
 D="$(mktemp -d /tmp/seedchk.XXXXXX)"
 trap 'rm -rf "$D"' EXIT
+mkdir -p "$D/tmp"; export TMPDIR="$D/tmp"   # temp files of the test-suite and the demos go with the scratch copy
 rsync -a --exclude .git --exclude docs/build --exclude logs /repo/ "$D/clean/"
 rsync -a "$D/clean/" "$D/mut/"
 (cd "$D/mut" && patch -p1 -s < "$SD/patch.diff") || { echo "PATCH-FAILED"; exit 2; }
